@@ -40,7 +40,9 @@ def strategy(tier):
     def case(draw):
         c = {"tree": draw(c07.small_tree()), "source": draw(c07.source_strategy()),
              # the metafile path may have a second name (hard link) or be a symbolic link to the real file
-             "link": draw(st.sampled_from([None, None, None, "hard", "sym"]))}
+             "link": draw(st.sampled_from([None, None, None, "hard", "sym"])),
+             # files an earlier, killed edit may have left next to the metafile: longer than anything this edit writes
+             "stale": draw(st.sampled_from([False, False, True]))}
         if draw(st.sampled_from([False] * 6 + [True])):
             c["bad"] = draw(st.sampled_from(BAD))
         else:
@@ -119,6 +121,10 @@ def run_case(case):
                 shutil.copyfile(src, p)
                 if case.get("link") == "hard":
                     os.link(p, os.path.join(d, "other-name.torrent"))
+            if case.get("stale"):
+                for nm in ("m.torrent.tmp", "m.torrent.new", ".m.torrent.tmp", "m.torrent~", "m.tmp", ".m.torrent.swp"):
+                    with open(os.path.join(d, nm), "wb") as fd:
+                        fd.write(b"stale staging data " * 400)
             return d, p
 
         # dry run: record the trace
